@@ -789,6 +789,7 @@ impl<T: Transport, Env: UtpEnvironment> VirtualSocket<T, Env> {
             // TODO: ensure this is synchronized
             if tx_len == 0 {
                 update_optional_waker(&mut g.dispatcher_waker, cx);
+                self.this_poll.unsegmented_data = 0;
                 return Ok(());
             }
 
@@ -820,6 +821,11 @@ impl<T: Transport, Env: UtpEnvironment> VirtualSocket<T, Env> {
 
             tx_len
         };
+
+        // Every early return below leaves data unsegmented: keep the count current, it decides
+        // whether the FIN may be scheduled (unsent_data_exists()).
+        self.this_poll.unsegmented_data =
+            tx_len.saturating_sub(self.user_tx_segments.total_len_bytes());
 
         if self.state.is_remote_fin_or_later() {
             trace!(?self.state, "there is still unsent data, but the remote closed, so not segmenting further");
